@@ -1,6 +1,8 @@
 import NixModel.Lemmas.C05Alias
 import NixModel.Lemmas.C05Dim
 import NixModel.Generated.LinkShape
+import NixModel.Lemmas.C05Accept
+import NixModel.Lemmas.C05Stale
 
 /-!
 # C05 — links are aliases of the original entity, never copies, and stay in their block
@@ -659,6 +661,98 @@ theorem shape_frame_unit_setter (fd : FrameData) (c : Nat) (v : Option String) :
     by_cases hc : c < us.length <;>
       simp [runUnitSetter, Gen.frameUnitSetterBody, execU, hu, hc]
 
+/-! ## `_accept`, `append`, `extend` statement by statement; handles that stand for no member of a block -/
+
+/-- the body of `LinkContainer._accept` as it stands in `nixio/container.py` (`Gen.acceptBody`), run on ANY graph,
+list and key (an entity handle, an id text, anything else), followed by the link `append` writes, is the shared
+model `contAppend`.  Every statement of the body is in the vocabulary `AStmt`: none of them lets an item through
+before `item not in self._itemstore` was asked (a fast path keyed on the handle's Python parent, a cache of accepted
+ids … break the translator or this theorem) -/
+theorem shape_accept_link (g : Graph) (c : Cont) (key : Key) (hf : c.info.flavour = .link) :
+    contAppend g c key = appendVia g c (execAccept g c Gen.acceptBody key) :=
+  contAppend_eq_accept_link g c key hf
+
+/-- … and the body of `SourceLinkContainer._accept` likewise for source lists (same id AND same object somewhere in
+the block's source tree) -/
+theorem shape_accept_source (g : Graph) (c : Cont) (key : Key) (hf : c.info.flavour = .sourceLink) :
+    contAppend g c key = appendVia g c (execAccept g c Gen.sourceAcceptBody key) :=
+  contAppend_eq_accept_source g c key hf
+
+/-- `LinkContainer.extend` as it stands in the source is the model `contExtend` (whose `_accept` bodies are the
+generated ones): every item is checked in the graph as it is before the call, the links follow -/
+theorem shape_extend (g : Graph) (c : Cont) (keys : List Key) :
+    (acceptBodyOf c = if c.info.flavour = .sourceLink then Gen.sourceAcceptBody else Gen.acceptBody) ∧
+    (c.info.flavour = .link ∨ c.info.flavour = .sourceLink →
+      execExtend c keys Gen.extendBody g none = contExtend g c keys) := by
+  constructor
+  · unfold acceptBodyOf
+    cases c.info.flavour <;> rfl
+  · intro hf
+    unfold contExtend
+    rcases hf with hf | hf <;> simp only [hf, Gen.extendBody, execExtend] <;>
+      (cases acceptAll g c keys with
+       | error e => rfl
+       | ok ks => simp only []; cases linkAll g c ks <;> rfl)
+
+/-- `extend` is all or nothing: it succeeds iff EVERY item passes `_accept` in the unchanged graph; otherwise the
+call is refused and (the state being what the refused call leaves) nothing was linked -/
+theorem extend_all_or_nothing (g : Graph) (c : Cont) (keys : List Key)
+    (hf : c.info.flavour = .link ∨ c.info.flavour = .sourceLink) :
+    (∃ g', contExtend g c keys = .ok g') ↔
+      ∀ key ∈ keys, ∃ k, execAccept g c (acceptBodyOf c) key = .ok k :=
+  contExtend_ok_iff g c keys hf
+
+/-- `extend([item])` is `append(item)` -/
+theorem extend_single_is_append (g : Graph) (c : Cont) (key : Key)
+    (hf : c.info.flavour = .link ∨ c.info.flavour = .sourceLink) : contExtend g c [key] = contAppend g c key :=
+  contExtend_single g c key hf
+
+/-- a handle whose node no group of the file links (kept across the deletion of its entity: HDF5 keeps the object
+alive while the handle is open) is refused by every list of every block — member lists, references, source lists —
+whatever its kind, name and id, also when another entity was created under its name since -/
+theorem detached_refused_by_lists (g : Graph) (k : Nat) (hd : Detached g k) (c : Cont) :
+    ∃ e, contAppend g c (.ent k) = .error e := contAppend_detached hd c
+
+/-- … by `extend` as soon as it is among the items (the other items are not linked either) -/
+theorem detached_refused_by_extend (g : Graph) (k : Nat) (hd : Detached g k) (c : Cont) (keys : List Key)
+    (hk : Key.ent k ∈ keys) : ∃ e, contExtend g c keys = .error e := by
+  by_cases hf : c.info.flavour = .link ∨ c.info.flavour = .sourceLink
+  · cases h : contExtend g c keys with
+    | error e => exact ⟨e, rfl⟩
+    | ok g' =>
+      exfalso
+      obtain ⟨k', hk'⟩ := (contExtend_ok_iff g c keys hf).mp ⟨g', h⟩ _ hk
+      obtain ⟨e, he⟩ := contAppend_detached hd c
+      have h1 : contExtend g c [.ent k] = contAppend g c (.ent k) := contExtend_single g c _ hf
+      have h2 : ∃ g1, contExtend g c [.ent k] = .ok g1 :=
+        (contExtend_ok_iff g c [.ent k] hf).mpr (by intro key hkey; simp at hkey; subst hkey; exact ⟨k', hk'⟩)
+      obtain ⟨g1, hg1⟩ := h2
+      rw [h1, he] at hg1
+      cases hg1
+  · unfold contExtend
+    cases hfl : c.info.flavour <;> simp_all
+
+/-- … and as `positions` / `extents` of a multi-tag and as data of a feature -/
+theorem detached_refused_by_roles (g : Graph) (t : Nat) (hd : Detached g t) (p : Path) (role : String)
+    (hrole : role = "positions" ∨ role = "extents" ∨ role = "data") :
+    ∃ e, setRole g p role (some t) = .error e := setRole_detached hd p role hrole
+
+/-- deleting an entity from its block (`del block.data_arrays[x]`, tags, multi-tags, data frames, groups) leaves its
+node detached: from then on the kept handle is refused everywhere (the three theorems above) -/
+theorem deleted_is_detached (g : Graph) (c : Cont) (k : Nat) (hf : c.info.flavour = .plain)
+    (hk : kindOf g k = c.info.item) :
+    contDel g c (.ent k) = .ok (g.deleteObjs [k]) ∧ Detached (g.deleteObjs [k]) k := by
+  constructor
+  · unfold contDel
+    simp [hf, hk]
+  · intro p l hl e
+    rw [links_deleteObjs] at hl
+    have := (List.mem_filter.mp hl).2
+    unfold keepObj at this
+    rw [e] at this
+    simp at this
+
+
 /-- The reachable-state form: in every state reached by dimension and structural operations no
 range dimension has both ticks and a link.  `ticks_link_exclusive_invariant` proves the step for
 the operations that write ticks, links and data; lifting it to all histories additionally needs
@@ -703,6 +797,27 @@ example : ((resolve demo.g rootLoc [.name "data", .name "b1", .name "groups", .n
   decide +kernel
 
 /-! ### … and a frame: a range dimension linked to column `v`, the column rewritten afterwards -/
+
+/-! a kept handle across a deletion: `y` of block `b1` is accepted by the group's list while it is the block's member,
+deleted from the block it is a detached node that `append`, `extend` (even next to the acceptable `x`) and
+`positions` refuse; `extend` of acceptable items alone succeeds -/
+
+def demoKey (name : String) : Option Nat :=
+  (resolve demo.g rootLoc [.name "data", .name "b1", .name "data_arrays", .name name]).map (·.key)
+
+def demoList (g : Graph) : Option Cont := openCont g [.name "data", .name "b1", .name "groups", .name "g"] "data_arrays"
+
+def okOf {α : Type} (r : Except Nix.Err α) : Bool := match r with | .ok _ => true | .error _ => false
+
+example : (demoKey "y").isSome = true := by decide +kernel
+example : ((demoKey "y").bind fun k => (demoList demo.g).map fun c => okOf (contAppend demo.g c (.ent k))) = some true := by
+  decide +kernel
+example : ((demoKey "y").bind fun k => (demoList (demo.g.deleteObjs [k])).map fun c =>
+    okOf (contAppend (demo.g.deleteObjs [k]) c (.ent k))) = some false := by decide +kernel
+example : ((demoKey "y").bind fun k => (demoKey "x").bind fun x => (demoList (demo.g.deleteObjs [k])).map fun c =>
+    (okOf (contExtend (demo.g.deleteObjs [k]) c [.ent x, .ent k]), okOf (contExtend (demo.g.deleteObjs [k]) c [.ent x]),
+     okOf (contExtend demo.g c [.ent x, .ent k]))) = some (false, true, true) := by decide +kernel
+
 
 def demoFrameOps : List DOp := [
   .store (.createBlock "b1" "t"),
